@@ -158,6 +158,13 @@ def gen_case(rng, tier):
             my.append("anno %d %d %s %d %d %d %s" % (gid, ts, y, at, rng.randrange(0, 256) if rng.random() < 0.3 else 0, st, _payload(rng, st)))
             ts += rng.choice([0, 1, 1, 50])
         dist.append("anno%d" % (0 if na == 0 else 1 if na < adf else 2 if na < adf * adf else 3))
+        # a REJECTED second definition of the same id with other layout parameters, somewhere in this signal's stream: it must leave
+        # no trace (the chunks written afterwards still follow the stored definition)
+        if my and rng.random() < 0.2:
+            dup = proglib.sigdef_op(gid, src, dt, rate=0 if vsr else 1000, spd=(spd * 2 if spd else 4096), sdf=(sdf * 2 if sdf else 64),
+                                    eps=(eps + sumdf if eps else 40), sumdf=sumdf or 10, adf=adf + 1, udf=udf + 1, name="e", units="e", stype=1 if vsr else 0)
+            my.insert(rng.randrange(0, max(1, len(my) // 2 + 1)), dup)
+            dist.append("dup_sigdef")
         data_ops.append((defop, my))
     # global annotations on signal 0 (VSR, defined by the library)
     g0 = []
